@@ -147,6 +147,18 @@ func (rc *RunCtx) ViolateAll(vs []*explore.Violation) {
 	}
 }
 
+// HasSignature reports whether a violation with this signature was recorded.
+func (rc *RunCtx) HasSignature(sig string) bool {
+	rc.mu.Lock()
+	defer rc.mu.Unlock()
+	for _, v := range rc.viols {
+		if v.Sig == sig {
+			return true
+		}
+	}
+	return false
+}
+
 func (rc *RunCtx) NumViolations() int {
 	rc.mu.Lock()
 	defer rc.mu.Unlock()
